@@ -75,7 +75,9 @@ Inductive pfilter :=
 | FCause (t : N)                 (* errors.Cause(err) == sentinel *)
 | FNot (f : pfilter)
 | FPanic
-| FNilFunc.                      (* PoisonQueueWithFilter(pub, topic, nil) *)
+| FNilFunc                       (* PoisonQueueWithFilter(pub, topic, nil) *)
+| FFirst.                        (* a stateful filter: yes to the first question about a message,
+                                    no to any later one; the middleware asks once per message *)
 
 Fixpoint filter_sem (f : pfilter) (e : err) : fres :=
   match f with
@@ -86,6 +88,7 @@ Fixpoint filter_sem (f : pfilter) (e : err) : fres :=
   | FNot g => fres_neg (filter_sem g e)
   | FPanic => FPanics
   | FNilFunc => FNoFunc
+  | FFirst => FYes
   end.
 
 (** ** metadata: a Go map[string]string as an association list kept sorted by key *)
